@@ -527,6 +527,53 @@ def gen_C15(tier, seed, unit, nunits): return {'math': G.corpus('C15') * (unit =
 def gen_C16(tier, seed, unit, nunits): return {'math': G.corpus('C16') * (unit == 0) + math_reqs(tier, seed, unit, nunits, ['sin', 'cos', 'tan'], 'C16')['math']}
 def gen_C17(tier, seed, unit, nunits): return {'math': G.corpus('C17') * (unit == 0) + math_reqs(tier, seed, unit, nunits, ['sqrt', 'log2', 'ln', 'exp', 'pow', 'sin', 'cos', 'tan'], 'C17')['math']}
 
+def hexs(b):
+    return b.hex() if b else '-'
+
+PARSE_FORMS = ['plain', 'saturating', 'wrapping', 'overflowing']
+def gen_C08(tier, seed, unit, nunits):
+    out = G.corpus('C08') if unit == 0 else []
+    for (s, n, f) in unit_layouts(G.all_layouts(), unit, nunits):
+        rng = random.Random(f'{seed}/C08/h/{s}/{n}/{f}')
+        for radix in (10, 10, 2, 8, 16):
+            for _ in range(scale(tier, 25, 700)):
+                out.append(req('h_from_str', s, n, f, radix, hexs(G.literal_for(rng, s, n, f, radix).encode())))
+            for _ in range(scale(tier, 4, 60)):
+                out.append(req('h_from_str', s, n, f, radix, hexs(G.malformed(rng, radix))))
+    for (s, n, f) in unit_layouts(G.typed_layouts(tier), unit, nunits):
+        rng = random.Random(f'{seed}/C08/t/{s}/{n}/{f}')
+        for radix in (10, 2, 8, 16):
+            for _ in range(scale(tier, 30, 600)):
+                h = hexs(G.literal_for(rng, s, n, f, radix).encode())
+                for fm in PARSE_FORMS:
+                    out.append(req(f'p_{fm}_{radix}', s, n, f, h))
+            for _ in range(scale(tier, 6, 60)):
+                h = hexs(G.malformed(rng, radix))
+                out.append(req(f'p_{rng.choice(PARSE_FORMS)}_{radix}', s, n, f, h))
+    return {'text': out}
+
+def gen_C09(tier, seed, unit, nunits):
+    out = G.corpus('C09') if unit == 0 else []
+    for (s, n, f) in unit_layouts(G.all_layouts(), unit, nunits):
+        rng = random.Random(f'{seed}/C09/h/{s}/{n}/{f}')
+        for x in G.fmt_vals(rng, s, n, f, scale(tier, 12, 400)):
+            for _ in range(2):
+                sp = G.fmt_spec(rng, ['d', 'd', 'b', 'o', 'x', 'X'])
+                out.append(req('h_fmt', s, n, f, *sp, x))
+            out.append(req('h_fmt', s, n, f, 'd', 'n', 0, 0, 0, '-', '-', x))
+            out.append(req('h_fmt', s, n, f, 'd', 'n', 0, 0, 0, '-', rng.randint(0, 12), x))
+    for (s, n, f) in unit_layouts(G.typed_layouts(tier), unit, nunits):
+        rng = random.Random(f'{seed}/C09/t/{s}/{n}/{f}')
+        lo, hi = G.rng_range(s, n)
+        vals = range(lo, hi + 1) if n == 8 else G.fmt_vals(rng, s, n, f, scale(tier, 60, 2500))
+        for x in vals:
+            out.append(req('rt', s, n, f, x))
+            sp = G.fmt_spec(rng, ['d', 'D', 'b', 'o', 'x', 'X'])
+            out.append(req('f_fmt', s, n, f, *sp, x))
+            if n == 8:
+                out.append(req('f_fmt', s, n, f, 'd', 'n', 0, 0, 0, '-', rng.randint(0, 12), x))
+    return {'text': out}
+
 PROPS = {
     'C01': dict(lean_modules=['SfxProps.C01'], bins=['arith'], profiles=['chk', 'rel'], gen=gen_C01, thorough_all_fracs=True),
     'C06': dict(lean_modules=['SfxProps.C06'], bins=['arith'], profiles=['chk', 'rel'], gen=gen_C06, thorough_all_fracs=True),
@@ -547,5 +594,7 @@ PROPS = {
     'C15': dict(lean_modules=['SfxProps.C15'], bins=['math'], profiles=['rel'], gen=gen_C15, oracle=True),
     'C16': dict(lean_modules=['SfxProps.C16'], bins=['math'], profiles=['rel'], gen=gen_C16, oracle=True),
     'C17': dict(lean_modules=['SfxProps.C17'], bins=['math'], profiles=['rel'], gen=gen_C17),
+    'C08': dict(lean_modules=['SfxProps.C08'], bins=['text'], profiles=['chk', 'rel'], gen=gen_C08),
+    'C09': dict(lean_modules=['SfxProps.C09'], bins=['text'], profiles=['chk', 'rel'], gen=gen_C09),
     'C02': dict(lean_modules=['SfxProps.C02'], bins=['arith'], profiles=['chk', 'rel'], gen=gen_C02, thorough_all_fracs=True),
 }
